@@ -82,6 +82,26 @@ def run(ctx, w):
         MT = w.terms(m)
         rz = [cs for cs in E.call_sites(m) if cs.callee.endswith("Vec::<T, A>::resize")]
         ok = len(rz) == 1 and mb.every_path_to_return_hits((0, 0), {rz[0].point}, include_start=True) and WD.strip_names(MT.operand(rz[0].term["args"][1], rz[0].point)) == ("load", ("arg2",))
+        if not ok:
+            # written differently (extend / truncate, ...): decide it by evaluation - for every old and new length the flag
+            # vector ends with exactly the requested length and keeps the flags that stay
+            try:
+                from rules import prims
+                import hir as _H
+                fl = [f["name"] for f in w.facts.struct_fields(S.dl_ty) if f["ty"]["s"].startswith("alloc::vec::Vec<bool>")]
+                oks = len(fl) == 1
+                for old in range(0, 5):
+                    for new in range(0, 6):
+                        if not oks:
+                            break
+                        flags = [bool(i % 2) for i in range(old)]
+                        obj = ("obj", S.dl_ty, {f["name"]: (prims.Vec(list(flags)) if f["name"] == fl[0] else _H.NONE_V) for f in w.facts.struct_fields(S.dl_ty)})
+                        prims.VecInterp(w.facts).call_fn(m, [obj, new])
+                        got = obj[2][fl[0]].items
+                        oks = len(got) == new and got[:min(old, new)] == flags[:min(old, new)]
+                ok = oks
+            except Exception:
+                pass
         ctx.check(ok, "R5", m, "%s does not set the dirty set's length to its argument on every path (a stale longer set yields changed-line indices >= rows)" % m, loc=w.fn_loc(m), sample={"fn": m})
     ctx.floor("R5", 3, "dirty-set sizing sites")
 
@@ -151,7 +171,15 @@ def length_rules(ctx, w, S, R):
         for cs in E.sites[f]:
             if cs.local:
                 st.append(cs.callee)
+    from rules import prims as _pr
+    prim_sigs = (("usize", "usize", "cell::Cell"), ("usize", "usize", "&pen::Pen"), ("core::ops::range::Range<usize>", "&pen::Pen"), ("usize", "cell::Cell"))
     for fn in sorted(changers):
+        sig = tuple(i["s"] for i in w.facts.fns[fn].get("inputs", [])[1:])
+        if fn in seen and sig in prim_sigs and _pr.rows_ok(w, S):
+            # a row primitive written with length-changing calls whose NET effect keeps the length: decided by evaluation
+            # (insert / delete / clear / print on every width <= 5 return a row of the same length)
+            ctx.ok("R7", fn, {"fn": fn, "length_preserved": "by evaluation of the row primitive"})
+            continue
         ctx.check(fn not in seen, "R7", fn, "%s changes the length of a row's cell vector and is reachable from a command handler without going through the buffer's resize: rows of the wrong width would appear" % fn,
                   loc=w.fn_loc(fn), sample={"fn": fn, "reachable_only_via_resize": fn not in seen})
     blank = None
